@@ -98,10 +98,9 @@ def World.copyLink (w : World) (l : Nat) (lk : Lookup) : World × Nat :=
     let missing := (L.refs.filter (fun r => (lk.get? (w.eqKey r)).isNone)).length
     ({ w with warnings := w.warnings + missing }).newLink { multi := true, refs := refs, rel := L.rel }
 
-/-- The per-class `copy()` methods, field by field (everything except the link).
-    `keepsLink = false` marks the classes whose copy drops the relation (R4). -/
+/-- Which classes transfer their relation link on `copy()` — all of them since the R4 repair; kept as a
+    per-class table so that `copy_class_faithful` (C05) states it class by class. -/
 def Cls.copyKeepsLink : Cls → Bool
-  | .barrier | .cshift => false
   | _ => true
 
 /-- fields of the copy of a leaf operation (link and registry are filled in by `copyLeaf`). -/
